@@ -138,6 +138,7 @@ FORMS_R = {
     "second-by-name-star-dstar": "{S}(*tr('xs', [1]), **tr('kw', {{'y': 2}}))",
     "two-keywords-unsorted": "{S}(tr('a', 's'), k=tr('k', 3), j=tr('j', 4))",
     "two-keywords-dependent": "{S}(tr('a', 's'), k=(kk := tr('k', 3)), j=kk + tr('j', 1))",
+    "name-rebound-by-later-argument": "[n0 := tr('a', 1), {S}(n0, len(n0 := tr('b', 'xx')))][1]",
 }
 FORMS_N = {
     "one": "{S}(tr('a', 5))",
@@ -156,6 +157,7 @@ FORMS_N = {
     "second-by-name-star-dstar": "{S}(*tr('xs', [1]), **tr('kw', {{'y': 2}}))",
     "two-keywords-unsorted": "{S}(tr('a', 's'), k=tr('k', 3), j=tr('j', 4))",
     "two-keywords-dependent": "{S}(tr('a', 's'), k=(kk := tr('k', 3)), j=kk + tr('j', 1))",
+    "name-rebound-by-later-argument": "[n0 := tr('a', 1), {S}(n0, len(n0 := tr('b', 'xx')))][1]",
 }
 FAIL_R = "{S}(tr('f', 1.5))"
 SPECIALS = {"recurse": "recurse", "call_next": "call_next", "self-name": "fself", "renamed": "rec", "closure-name": "me"}
@@ -427,7 +429,7 @@ def run_case(context, form, special, kind, acc):
     try:
         compile(src, fname, "exec")
     except SyntaxError as e:
-        if "+" in context or form == "two-keywords-dependent":
+        if "+" in context or form in ("two-keywords-dependent", "name-rebound-by-later-argument"):
             # some depth-2 combinations are not Python (nor is a form with its own walrus inside a comprehension iterable / class body) (a walrus in a comprehension iterable, braces in an f-string)
             if acc is not None:
                 acc.count("skipped_not_python")
@@ -531,7 +533,7 @@ def main(tier):
              "f-string, subscript / attribute base, walrus, try/finally, try/except around a failing call, generator, for, with, "
              "decorator, raise after the call, while / assert / augmented and annotated assignment, starred and ** displays, slice, comparison chain, "
              "match subject, yield from, except / else / with bodies, method of a nested class, doubly nested def, lambda in a comprehension, "
-             "nested comprehension, starred assignment, nonlocal target, class body, locals named type / isinstance / map, a call following a completed inner comprehension inside a comprehension iterable / second for clause / class body; thorough: and depth 2 = each of 12 expression contexts around the call inside every statement context, for recurse / call_next on three kinds) x 16 call forms (positional, two, keyword, two keywords in non-alphabetical order (also one depending on the other through a walrus), starred, second positional by name directly / through ** / with * and **, "
+             "nested comprehension, starred assignment, nonlocal target, class body, locals named type / isinstance / map, a call following a completed inner comprehension inside a comprehension iterable / second for clause / class body; thorough: and depth 2 = each of 12 expression contexts around the call inside every statement context, for recurse / call_next on three kinds) x 17 call forms (positional, two, keyword, a bare name that a later argument rebinds, two keywords in non-alphabetical order (also one depending on the other through a walrus), starred, second positional by name directly / through ** / with * and **, "
              "double-starred, nested in the first / a later / a keyword argument / both) x 5 special names (recurse, call_next, the function's own name as a global / as a closure variable, a renamed import) x 8 "
              "function kinds (module-level, a method whose own function is a closure variable between two others, a function whose first position is strictly positional (named differently by every method), closure instantiated twice, positional defaults, keyword-only defaults, method with "
              "self, lambda / generator expression in the signature); each built twice from one source text; compared: acceptance, result, exception, order and multiplicity of "
